@@ -2,17 +2,29 @@
 // node element was compared, so that the sortedness precondition can be instantiated for that element.
 #ifndef VX_BTSEARCH_H
 #define VX_BTSEARCH_H
+#ifdef VX_KEY2
+// two-column key with the relational operators std::array provides (lexicographic)
+struct vx_key2 { int c[2]; };
+inline bool operator<(const vx_key2& a, const vx_key2& b) { return a.c[0] < b.c[0] || (a.c[0] == b.c[0] && a.c[1] < b.c[1]); }
+inline bool operator>(const vx_key2& a, const vx_key2& b) { return b < a; }
+inline bool operator==(const vx_key2& a, const vx_key2& b) { return a.c[0] == b.c[0] && a.c[1] == b.c[1]; }
+#define VX_ELT vx_key2
+#define VX_COMP vx_comp_key2
+#else
+#define VX_ELT int
+#define VX_COMP vx_comp_int
+#endif
 extern "C" {
-void vx_touch(const int* x, const int* y);
-void vx_enter_linear_search__lower_bound_0(void); bool vx_head_linear_search__lower_bound_0(const int** c, const int* a, const int* b);
-void vx_enter_linear_search__upper_bound_0(void); bool vx_head_linear_search__upper_bound_0(const int** c, const int* a, const int* b);
-void vx_enter_binary_search__lower_bound_0(void); bool vx_head_binary_search__lower_bound_0(const int** a, const int** c, long* count, const int* b);
-void vx_enter_binary_search__upper_bound_0(void); bool vx_head_binary_search__upper_bound_0(const int** a, const int** c, long* count, const int* b);
-void vx_enter_binary_search__call_0(void); bool vx_head_binary_search__call_0(const int** a, const int** c, long* count, const int* b);
+void vx_touch(const void* x, const void* y);
+void vx_enter_linear_search__lower_bound_0(void); bool vx_head_linear_search__lower_bound_0(const void** c, const void* a, const void* b);
+void vx_enter_linear_search__upper_bound_0(void); bool vx_head_linear_search__upper_bound_0(const void** c, const void* a, const void* b);
+void vx_enter_binary_search__lower_bound_0(void); bool vx_head_binary_search__lower_bound_0(const void** a, const void** c, long* count, const void* b);
+void vx_enter_binary_search__upper_bound_0(void); bool vx_head_binary_search__upper_bound_0(const void** a, const void** c, long* count, const void* b);
+void vx_enter_binary_search__call_0(void); bool vx_head_binary_search__call_0(const void** a, const void** c, long* count, const void* b);
 }
-struct vx_comp_int {
-    souffle::detail::comparator<int> real;
-    int operator()(const int& x, const int& y) const {
+struct VX_COMP {
+    souffle::detail::comparator<VX_ELT> real;
+    int operator()(const VX_ELT& x, const VX_ELT& y) const {
         vx_touch(&x, &y);
         return real(x, y);
     }
